@@ -1,8 +1,5 @@
 /*
- * Contract of qbe.c:convert() where a floating type is involved + harness.  Shared by
- *   QBE.convert.flt         every clause on float/double and integer sources of size >= 4          (passes)
- *   QBE.convert.flt.subint  char/short/_Bool -> float/double                                       (FAILS: defect)
- *   QBE.convert.ldouble     long double on either side must be diagnosed (C10)                     (FAILS: defect)
+ * Contract of qbe.c:convert() where a floating type is involved + harness (unit QBE.convert.flt).
  * Oracle: C11 6.3.1.4 (real floating <-> integer: truncation toward zero; exact or correctly rounded value of the
  * integer), 6.3.1.5 (float <-> double), 6.3.1.2 (_Bool); QBE IL reference "Conversions": stosi/stoui/dtosi/dtoui
  * take an s resp. d operand and give a signed/unsigned integer of the result class w or l; swtof/uwtof read a
@@ -67,25 +64,18 @@ struct value *g_lp;
 	X(IMP(!LDBL && I2F, rec.n >= 1 && I2F_OP && LAST.cls == (g_dsz == 8 ? 'd' : 's') && LAST.arg[1] == 0 && RET == LAST.resp)) \
 	/* ... and the integer it reads (a signed/unsigned word/long per its mnemonic) IS the source value */ \
 	X(IMP(!LDBL && I2F && !SUBINT, OP_LO == CVAL && OP_NEG == C_NEG)) \
+	/* same fact for char/short/_Bool sources: its own clause because it FAILED on the pinned snapshot 135bd81 \
+	   (swtof/uwtof applied to the un-extended operand: `(float)(short)x` compiled to `swtof %x`, f(0x12345) == 74565.0 \
+	   instead of 9029.0); repaired in /repo by bc7214a */ \
+	X(IMP(!LDBL && I2F && SUBINT, OP_LO == CVAL && OP_NEG == C_NEG)) \
+	/* C10 (README "What's missing": long double): a conversion to or from long double is rejected.  FAILED on the \
+	   pinned snapshot (`double g(int x){return (long double)x;}` compiled silently to swtof/truncd on mismatched \
+	   classes); repaired in /repo by 6ae6305 */ \
+	X(!LDBL) \
 	X(g_lp->u.i == g_x) \
 	CANARY(X, !(I2F && g_ssz == 8 && g_dsz == 4 && g_x == 5))
 
-#define POST_SUBINT(X) \
-	X(IMP(!LDBL && I2F && SUBINT, OP_LO == CVAL && OP_NEG == C_NEG)) \
-	CANARY(X, !(I2F && g_ssz == 2 && g_dsz == 4 && g_x == 5))
-
-#define POST_LDBL(X) \
-	/* C10 (README "What's missing": long double): a conversion to or from long double is rejected */ \
-	X(!LDBL) \
-	CANARY(X, !(I2F && g_ssz == 8 && g_dsz == 4 && g_x == 5))
-
-#if defined(CF_SUBINT)
-#define POST_SEL POST_SUBINT
-#elif defined(CF_LDBL)
-#define POST_SEL POST_LDBL
-#else
 #define POST_SEL POST_FLT
-#endif
 
 static struct value *convert_contract(struct func *f, struct type *dst, struct type *src, struct value *l)
 REQUIRES(PRE)
